@@ -2,7 +2,7 @@
 *every* step of every run; the protocol recognisers of the Lean model (ledger, step ordering,
 WFHistory, notification automaton) are run over what the engine did."""
 import json, copy
-import common, explore, enginerun, machgen
+import common, explore, enginerun, machgen, fanproto
 from common import cj, pj
 from machgen import FN, ARN
 
@@ -154,6 +154,8 @@ def corpus(rng, quick):
     out.append(S("oversize-branch-task", {"StartAt": "P", "States": {"P": {"Type": "Parallel", "End": True, "Branches": [
         {"StartAt": "T", "States": {"T": T("f1", Next="Z", ResultPath="$.dup"), "Z": {"Type": "Pass", "End": True}}},
         {"StartAt": "B", "States": {"B": T("f2")}}]}}}, big, {"f1": [("ok",)], "f2": [("ok",)]}, {"f1": 10, "f2": 30}))
+    # the witnesses of the fan-out protocol findings, once they are repaired (until then C06 runs them and classifies)
+    out += [w for w in fan_witnesses() if finding_status(w.extra["finding"]) == "fixed"]
     # minimised / kept past failures (corpus/engine.json)
     for c in common.load_corpus("engine"):
         out.append(S(c["name"], c["machine"], c["input"], {k: [tuple(o) for o in v] for k, v in c["plans"].items()},
@@ -171,6 +173,61 @@ def corpus(rng, quick):
             s.plans = {"g": [("ok",)]}
             s.extra["fail_payload"] = fi
     return out
+
+
+def fan_witnesses():
+    """witnesses of the findings of the fan-out protocol model (`AslModel/FanProto.lean`, findings C06-F3 / F4 / F5), each
+    tagged with its finding: run by C06 always; part of the shared corpus (C02, C03, C09, C11) once the finding is fixed"""
+    S = explore.Scenario
+    out = []
+
+    def outer(handler, nested):
+        return {"StartAt": "P", "States": {"P": dict({"Type": "Parallel", "Next": "Z", "Branches": [
+            {"StartAt": "A", "States": {"A": T("fa")}},
+            {"StartAt": "N", "States": {"N": nested}}]}, **handler), "Z": {"Type": "Pass", "End": True},
+            "R": {"Type": "Pass", "Result": "recovered", "End": True}}}
+    npar = {"Type": "Parallel", "End": True, "Branches": [{"StartAt": "X", "States": {"X": T("fx")}}]}
+    # C06-F3: the enclosing state's failure is retried / caught, then the nested state of the sibling branch fails too
+    for hn, handler in (("retry", {"Retry": [{"ErrorEquals": ["EA"], "IntervalSeconds": 1, "MaxAttempts": 1, "BackoffRate": 1.0}]}),
+                        ("catch", {"Catch": [{"ErrorEquals": ["States.ALL"], "Next": "R"}]}),
+                        ("retry-ok", {"Retry": [{"ErrorEquals": ["States.ALL"], "IntervalSeconds": 3, "MaxAttempts": 2}]})):
+        out.append(S("nestfail-" + hn, outer(handler, npar), {"x": 1},
+                     {"fa": [("err", "EA", "m"), ("ok",)], "fx": [("err", "EX", "m"), ("ok",), ("ok",)]}, {"fa": 5, "fx": 40},
+                     extra={"finding": "C06-F3", "errors": ["EA", "EX"]}))
+    # C06-F4: three levels; the outermost state fails while the innermost branch has events queued
+    chain = {"StartAt": "X1", "States": {"X1": {"Type": "Pass", "Next": "X2"}, "X2": {"Type": "Pass", "Next": "X3"},
+                                         "X3": {"Type": "Pass", "Next": "X4"}, "X4": {"Type": "Pass", "End": True}}}
+    deep = lambda handler: {"StartAt": "P", "States": {"P": dict({"Type": "Parallel", "Next": "Z", "Branches": [
+        {"StartAt": "A", "States": {"A": T("fa")}},
+        {"StartAt": "Q", "States": {"Q": {"Type": "Parallel", "End": True, "Branches": [
+            {"StartAt": "R", "States": {"R": {"Type": "Parallel", "End": True, "Branches": [chain]}}}]}}}]}, **handler),
+        "Z": {"Type": "Pass", "End": True}, "C": {"Type": "Pass", "Result": "recovered", "End": True}}}
+    out.append(S("depth3-fail-vs-pass", deep({}), {"x": 1}, {"fa": [("err", "EA", "m")]}, {"fa": 0},
+                 extra={"finding": "C06-F4", "errors": ["EA"]}))
+    out.append(S("depth3-caught-vs-pass", deep({"Catch": [{"ErrorEquals": ["EA"], "Next": "C"}]}), {"x": 1},
+                 {"fa": [("err", "EA", "m")]}, {"fa": 0}, extra={"finding": "C06-F4", "errors": ["EA"]}))
+    # C06-F5: the back stop ends the execution while a top-level event is stuck in the broker (metadata retained after a
+    # caught failure), or while the top-level state waits out its retry delay
+    slow = {"Type": "Parallel", "End": True, "Branches": [{"StartAt": "X", "States": {"X": {"Type": "Pass", "Next": "X2"},
+                                                                                       "X2": {"Type": "Pass", "End": True}}}]}
+    out.append(S("topguard-catch-ttl", {"TimeoutSeconds": 20, "StartAt": "P", "States": {"P": {"Type": "Parallel", "Next": "Z",
+        "Catch": [{"ErrorEquals": ["EA"], "Next": "R"}], "Branches": [{"StartAt": "A", "States": {"A": T("fa")}},
+                                                                     {"StartAt": "N", "States": {"N": slow}}]},
+        "Z": {"Type": "Pass", "End": True}, "R": {"Type": "Pass", "Next": "R2"}, "R2": {"Type": "Pass", "End": True}}},
+        {"x": 1}, {"fa": [("err", "EA", "m")]}, {"fa": 5}, extra={"finding": "C06-F5", "stall_at": [11, 12], "errors": ["EA"]}))
+    out.append(S("topguard-retry-ttl", {"TimeoutSeconds": 20, "StartAt": "P", "States": {"P": {"Type": "Parallel", "End": True,
+        "Retry": [{"ErrorEquals": ["EA"], "IntervalSeconds": 200, "MaxAttempts": 1}],
+        "Branches": [{"StartAt": "A", "States": {"A": T("fa")}}, {"StartAt": "B", "States": {"B": T("fb")}}]}}},
+        {"x": 1}, {"fa": [("err", "EA", "m"), ("ok",)], "fb": [("ok",), ("ok",)]}, {"fa": 5, "fb": 10},
+        extra={"finding": "C06-F5", "stall_at": [10, 13], "errors": ["EA"]}))
+    return out
+
+
+def finding_status(fid):
+    for f in common.load_findings():
+        if f["id"] == fid:
+            return f["status"]
+    return None
 
 
 def generated(rng, n, depth):
@@ -411,6 +468,8 @@ def run_property(chk, prop, laws, quick_gen=300, thorough_gen=4000, scns=None, n
         n_rand = 4 if quick else 40
     lines, line_meta = [], []
     pending_runs = []
+    ordered_cases = []
+    fan = prop == "C06"
     for scn in scns:
         hand = not scn.name.startswith("gen")
         scheds = ["canonical"] + ["random"] * (n_rand if hand else 1)
@@ -423,6 +482,8 @@ def run_property(chk, prop, laws, quick_gen=300, thorough_gen=4000, scns=None, n
             # the broker stalls: nothing is delivered for over a minute of virtual time, at a random moment or right
             # after the terminal notification, while timers and heartbeats (the once-a-minute back stop) keep firing
             scheds += ["stall"] * max(4, n_rand)
+            # ... and, for a scenario that names them, at given steps of the canonical schedule
+            scheds += ["stall@%d" % k for k in scn.extra.get("stall_at", [])]
         for kind in scheds:
             mon = Monitor(scn)
             redis = kind.startswith("redis")
@@ -430,9 +491,14 @@ def run_property(chk, prop, laws, quick_gen=300, thorough_gen=4000, scns=None, n
             mon.two_views = redis
             if redis:
                 kind = kind[len("redis-"):]
+            # C06: the run is also abstracted into the alphabet of the fan-out protocol model (fanproto.py)
+            tracer = fanproto.Tracer(s, ea) if (fan and not redis and scn.sm_type == "STANDARD") else None
             mon(s, ea, None)
             g = None
             stall_at = None if kind != "stall" else chk.rng.choice(["terminal", "terminal", chk.rng.randrange(0, 14)])
+            forced = kind.startswith("stall@")
+            if forced:
+                stall_at, kind = int(kind[len("stall@"):]), "stall"
             stall_until = None
             while s.steps < 2500:
                 if explore.terminal_seen(s, ea) and g is None:
@@ -450,7 +516,7 @@ def run_property(chk, prop, laws, quick_gen=300, thorough_gen=4000, scns=None, n
                     stall_until = simmod.CLOCK.ms      # nothing is armed: the stall is over
                 if g is not None and s.steps >= g and (stall_until is None or simmod.CLOCK.ms >= stall_until):
                     break
-                if kind == "canonical":
+                if kind == "canonical" or forced:
                     st = s.canonical_step()
                     if st is None:
                         break
@@ -494,7 +560,13 @@ def run_property(chk, prop, laws, quick_gen=300, thorough_gen=4000, scns=None, n
             want_hist = "C09" in laws and speaks and scn.sm_type == "STANDARD"
             # C11.notifications_match_reference: the same runs (EXPRESS ones too: they are notified like any other)
             want_notes = "C11" in laws and speaks
-            pending_runs.append({"probs": probs, "case": case, "hand": hand, "kind": kind,
+            ab = None
+            if tracer is not None:
+                try:
+                    ab = fanproto.Abstraction(tracer, scn.machine).run()
+                except fanproto.Unsupported as e:
+                    chk.dist("fanproto.unsupported.%s" % e)
+            pending_runs.append({"probs": probs, "case": case, "hand": hand, "kind": kind, "fan": ab,
                                  "hist": (list(getattr(mon, "final_history", []) or []), len(s.rpc_requests),
                                           [q["t"] for q in s.rpc_requests]) if want_hist else None,
                                  "notes": [n["detail"] for n in mon.notes] if want_notes else None,
@@ -512,11 +584,15 @@ def run_property(chk, prop, laws, quick_gen=300, thorough_gen=4000, scns=None, n
                     for i, fs in enumerate(mon.steps):
                         if any(f[0] == "a" for f in fs) and any(f[0] == "p" for f in fs):
                             lines.append("engine\tordered\t" + pj(fs))
-                            line_meta.append(("ordered", dict(case, step=i, step_kind=trace[i] if i < len(trace) else None), fs))
+                            oc = dict(case, step=i, step_kind=trace[i] if i < len(trace) else None)
+                            ordered_cases.append((oc, case))
+                            line_meta.append(("ordered", oc, fs))
                 if "C02" in laws or "C11" in laws:
                     lines.append("engine\tnotes\t" + pj([n["detail"]["status"] for n in mon.notes]))
                     line_meta.append(("notes", case, [n["detail"]["status"] for n in mon.notes]))
             s.close()
+    # --- C06.matches_fan_protocol: the protocol model, run on the abstracted inputs of every run, against what the engine did
+    classify_for = fan_protocol_stage(chk, pending_runs) if fan else (lambda pr: None)
     # --- outcome laws that need the reference semantics: one batched driver call
     mlines = [pr["mline"] for pr in pending_runs if pr["mline"]]
     manswers = iter(common.driver(mlines, shards=8))
@@ -551,10 +627,14 @@ def run_property(chk, prop, laws, quick_gen=300, thorough_gen=4000, scns=None, n
             if not any(law.startswith(l) for l in laws) or law in seen:
                 continue
             seen.add(law)
-            chk.report("impl-violates-law", pr["case"], impl=detail, law=law, classify=None)
+            chk.report("impl-violates-law", pr["case"], impl=detail, law=law, classify=classify_for(pr))
     answers = common.driver(lines, shards=8)
     seen_ord = set()
+    run_of = {id(pr["case"]): pr for pr in pending_runs}
+    for oc, case in ordered_cases:
+        run_of[id(oc)] = run_of.get(id(case))
     for a, (kind, case, extra) in zip(answers, line_meta):
+        classify = classify_for(run_of.get(id(case))) if fan else None
         parts = a.split("\t")
         chk.cov["evaluations"] += 1
         if parts[0] != "ok":
@@ -563,24 +643,28 @@ def run_property(chk, prop, laws, quick_gen=300, thorough_gen=4000, scns=None, n
         m = json.loads(parts[1])
         if kind == "history" and not m["wf"]:
             chk.report("impl-violates-law", case, impl={"history": [[e.get("id"), e.get("previousEventId"), e.get("type")] for e in extra]},
-                       model=m, law="C09.WFHistory (Lean recogniser: numbering, timestamps, terminal last, starts with ExecutionStarted, brackets)")
+                       model=m, law="C09.WFHistory (Lean recogniser: numbering, timestamps, terminal last, starts with ExecutionStarted, brackets)",
+                       classify=classify)
         elif kind == "ledger":
             if m["bad"]:
-                chk.report("impl-violates-law", case, impl={"ledger": "ack of a tag that is not outstanding"}, model=m, law="C03.ack_once (Lean ledger)")
+                chk.report("impl-violates-law", case, impl={"ledger": "ack of a tag that is not outstanding"}, model=m, law="C03.ack_once (Lean ledger)",
+                           classify=classify)
             elif len(m["unacked"]) != extra["broker_unacked"]:
                 chk.report("impl-differs-from-spec", case, impl={"broker_unacked": extra["broker_unacked"]}, model=m,
-                           law="C03.ledger agrees with the broker's own accounting")
+                           law="C03.ledger agrees with the broker's own accounting", classify=classify)
         elif kind == "ordered" and m is False:
             sig = cj([case["scenario"], extra])
             if sig in seen_ord:
                 continue
             seen_ord.add(sig)
             chk.report("impl-violates-law", case, impl={"step_frames": extra}, model={"stepOrdered": False},
-                       law="C03.ack_after_consequences (Lean stepOrdered: nothing is published after an acknowledgement within a handler step)")
+                       law="C03.ack_after_consequences (Lean stepOrdered: nothing is published after an acknowledgement within a handler step)",
+                       classify=classify)
         elif kind == "notes" and m is False:
             chk.report("impl-violates-law", case, impl={"notifications": extra}, model={"notesOK": False},
                        law=("C02.notifications are a prefix of [RUNNING, T] (Lean lifecycle automaton)" if "C02" in laws else
-                            "C11.each status change is published exactly once (Lean lifecycle automaton over the notifications)"))
+                            "C11.each status change is published exactly once (Lean lifecycle automaton over the notifications)"),
+                       classify=classify)
     chk.cov["streams"]["scenarios"] = len(scns)
     chk.cov["rule"] = rule or ("hand-written scenarios (sequential machines of every state type incl. retry/catch/path errors and an EXPRESS "
                        "machine; Parallel 2-3 and Map with MaxConcurrency 0-2, all succeeding or with exactly one unhandled failing "
@@ -594,6 +678,58 @@ def run_property(chk, prop, laws, quick_gen=300, thorough_gen=4000, scns=None, n
                        "C11.notifications_match_reference: the status notifications (statuses in order, input / output / error "
                        "payload) against the model's"
                        % n_rand)
+
+
+def open_quirks(prop="C06"):
+    """the model switches of the open findings of the fan-out protocol: {letter: finding id}"""
+    return {f["quirk"]: f["id"] for f in common.load_findings() if f["property"] == prop and f["status"] == "open" and f.get("quirk")}
+
+
+def fan_protocol_stage(chk, pending_runs):
+    """runs the Lean protocol model (with the switches of the open findings: the code as it is) on the abstracted input
+    sequence of every run and compares it step by step with the engine; adds `C06.matches_fan_protocol` to the problems of
+    a run that differs.  Returns classify_for(run): a run with problems is explained by an open finding exactly when the
+    model agrees with the engine with that finding's switch on and disagrees with it off."""
+    oq = open_quirks()
+    letters = "".join(sorted(oq))
+    runs = [pr for pr in pending_runs if pr.get("fan") is not None]
+    answers = common.driver([fanproto.line(pr["fan"], letters) for pr in runs], shards=8)
+    for pr, a in zip(runs, answers):
+        ab = pr["fan"]
+        chk.dist("fanproto.runs_compared")
+        chk.dist("fanproto.steps_compared", len(ab.groups))
+        chk.dist("fanproto.inputs", ab.n_inputs)
+        for k, n in ab.kinds.items():
+            chk.dist("fanproto.input.%s" % k, n)
+        d = fanproto.compare(ab, a)
+        pr["fan_agrees"] = not d
+        if d:
+            step, what, model, engine = d[0]
+            pr["probs"].append(("C06.matches_fan_protocol", {"step": step, "what": what, "model": model, "engine": engine,
+                                                              "inputs_up_to_there": [g["inputs"] for g in ab.groups if g["step"] <= step][-6:]}))
+    # which open finding explains a run that has problems: asked for when a problem of the run is reported
+    cache = {}
+
+    def explain(pr):
+        if id(pr) not in cache:
+            fid = None
+            if pr.get("fan") is not None and pr.get("fan_agrees") and oq:
+                qs = sorted(oq)
+                diffs = []
+                for q, a in zip(qs, common.driver([fanproto.line(pr["fan"], letters.replace(q, "")) for q in qs])):
+                    d = fanproto.compare(pr["fan"], a)
+                    if d:
+                        diffs.append((d[0][0], oq[q]))
+                if diffs:
+                    fid = sorted(diffs)[0][1]           # the switch whose absence shows first
+            cache[id(pr)] = fid
+        return cache[id(pr)]
+
+    def classify_for(pr):
+        if pr is None:
+            return None
+        return lambda f, case, impl, model: f["id"] == explain(pr)
+    return classify_for
 
 
 def replay_case(chk, path):
